@@ -1,8 +1,8 @@
 SPECIFICATION Spec
 CONSTANTS
-  Shapes <- WideShapes
-  RandomBig = 0
-  Vals = {0, 5}
+  Shapes = {}
+  RandomBig = 6
+  Vals = {0}
 INVARIANTS
   Lemmas
   Emit
